@@ -97,7 +97,7 @@ package isobmff
 //@   ensures [C11] b.remain == ite(old(b.remain) >= n, old(b.remain) - n, old(b.remain))
 //@   ensures chOK(b) && (old(b.remain) >= 0 ==> wf2(b))
 //@   uses end_mono(old(pos(b.reader.br)), r0, old(b.remain), n)
-//@   ensures noInc(b) && charged(b) && exactTop(b)
+//@   ensures [C11] noInc(b) && charged(b) && exactTop(b)
 
 //@ func (*box).close
 //@   props C01 C02 C11
@@ -107,7 +107,7 @@ package isobmff
 //@   ensures [C11] old(b.remain) == 0 ==> r0 == nil
 //@   ensures pos(b.reader.br) >= old(pos(b.reader.br))
 //@   ensures wf2(b)
-//@   ensures noInc(b) && charged(b) && exactTop(b)
+//@   ensures [C11] noInc(b) && charged(b) && exactTop(b)
 
 
 // C11: a child box is framed by its 32-bit size (or 64-bit size after the type when the 32-bit field is 1); on success
@@ -116,12 +116,12 @@ package isobmff
 //@   props C01 C02 C11
 //@   requires wf1(b)
 //@   modifies stream(b.reader.br), b.remain, b.outer.remain, b.outer.outer.remain, b.reader.offset
-//@   ensures remOK(b) && pos(b.reader.br) >= old(pos(b.reader.br))
+//@   ensures [C11] remOK(b) && pos(b.reader.br) >= old(pos(b.reader.br))
 //@   ensures [C11] next ==> inner.outer == b && inner.reader == b.reader && inner.remain >= 0 && inner.remain <= int(inner.size)
 //@   ensures [C11] next && err == nil ==> inner.size == boxSizeAt(b.reader.br, old(pos(b.reader.br))) && inner.remain == int(inner.size) - boxHdrAt(b.reader.br, old(pos(b.reader.br))) && pos(b.reader.br) == old(pos(b.reader.br)) + boxHdrAt(b.reader.br, old(pos(b.reader.br)))
 //@   ensures [C02 C11] next && err == nil ==> b.remain <= old(b.remain) - 8 && pos(b.reader.br) >= old(pos(b.reader.br)) + 8
 //@   ensures [C11] !next ==> b.remain == old(b.remain) && pos(b.reader.br) == old(pos(b.reader.br))
-//@   ensures noInc(b) && charged(b) && exactTop(b)
+//@   ensures [C11] noInc(b) && charged(b) && exactTop(b)
 
 //@ func (*Reader).readBox
 //@   props C01 C02 C11
@@ -135,22 +135,22 @@ package isobmff
 //@   props C01 C02 C11
 //@   requires wf2(b)
 //@   modifies stream(b.reader.br), b.remain, b.outer.remain, b.outer.outer.remain, b.reader.offset
-//@   ensures remOK(b) && pos(b.reader.br) >= old(pos(b.reader.br)) 
-//@   ensures noInc(b) && charged(b) && exactTop(b)
+//@   ensures [C11] remOK(b) && pos(b.reader.br) >= old(pos(b.reader.br)) 
+//@   ensures [C11] noInc(b) && charged(b) && exactTop(b)
 
 //@ func (*box).readUUID
 //@   props C01 C02 C11
 //@   requires wf2(b)
 //@   modifies stream(b.reader.br), b.remain, b.outer.remain, b.outer.outer.remain, b.reader.offset
-//@   ensures remOK(b) && pos(b.reader.br) >= old(pos(b.reader.br)) 
-//@   ensures noInc(b) && charged(b) && exactTop(b)
+//@   ensures [C11] remOK(b) && pos(b.reader.br) >= old(pos(b.reader.br)) 
+//@   ensures [C11] noInc(b) && charged(b) && exactTop(b)
 
 //@ func (*box).readFlags
 //@   props C01 C02 C11
 //@   requires wf2(b)
 //@   modifies stream(b.reader.br), b.remain, b.outer.remain, b.outer.outer.remain, b.reader.offset, b.flags
-//@   ensures remOK(b) && pos(b.reader.br) >= old(pos(b.reader.br)) 
-//@   ensures noInc(b) && charged(b) && exactTop(b)
+//@   ensures [C11] remOK(b) && pos(b.reader.br) >= old(pos(b.reader.br)) 
+//@   ensures [C11] noInc(b) && charged(b) && exactTop(b)
 
 //@ func (*box).readFlagsFromBuf
 //@   props C01
@@ -242,7 +242,7 @@ package isobmff
 //@   props C01 C02
 //@   requires wf2(b)
 //@   modifies b.remain, b.outer.remain, b.outer.outer.remain, b.reader.offset
-//@   ensures remOK(b) && b.remain <= old(b.remain)
+//@   ensures [C11] remOK(b) && b.remain <= old(b.remain)
 //@   ensures [C11] old(allFit(b, n)) ==> chargedBy(b, n)
 //@   requires n >= 0
 //@   decreases clen2(b)
@@ -259,7 +259,7 @@ package isobmff
 //@   props C01 C02 C11
 //@   requires wf2(b)
 //@   modifies stream(b.reader.br), b.remain, b.outer.remain, b.outer.outer.remain, b.reader.offset, mem(p)
-//@   ensures remOK(b) && pos(b.reader.br) >= old(pos(b.reader.br)) && noInc(b) && charged(b) && exactTop(b)
+//@   ensures [C11] remOK(b) && pos(b.reader.br) >= old(pos(b.reader.br)) && noInc(b) && charged(b) && exactTop(b)
 //@   ensures 0 <= n && n <= len(p)
 //@   uses end_mono(old(pos(b.reader.br)), n, old(b.remain), n); end_mono(old(pos(b.reader.br)), n, old(b.outer.remain), n); end_mono(old(pos(b.reader.br)), n, old(b.outer.outer.remain), n)
 
@@ -268,77 +268,77 @@ package isobmff
 //@   props C01 C02 C11
 //@   requires wf2(b)
 //@   modifies stream(b.reader.br), b.remain, b.outer.remain, b.outer.outer.remain, b.reader.offset
-//@   ensures remOK(b) && pos(b.reader.br) >= old(pos(b.reader.br)) && noInc(b) && charged(b) && exactTop(b)
+//@   ensures [C11] remOK(b) && pos(b.reader.br) >= old(pos(b.reader.br)) && noInc(b) && charged(b) && exactTop(b)
 
 
 //@ func readCNCVBox
 //@   props C01 C02 C11
 //@   requires wf2(b)
 //@   modifies stream(b.reader.br), b.remain, b.outer.remain, b.outer.outer.remain, b.reader.offset
-//@   ensures remOK(b) && pos(b.reader.br) >= old(pos(b.reader.br)) && noInc(b) && charged(b) && exactTop(b)
+//@   ensures [C11] remOK(b) && pos(b.reader.br) >= old(pos(b.reader.br)) && noInc(b) && charged(b) && exactTop(b)
 
 
 //@ func readCTBOBox
 //@   props C01 C02 C11
 //@   requires wf2(b)
 //@   modifies stream(b.reader.br), b.remain, b.outer.remain, b.outer.outer.remain, b.reader.offset
-//@   ensures remOK(b) && pos(b.reader.br) >= old(pos(b.reader.br)) && noInc(b) && charged(b) && exactTop(b)
+//@   ensures [C11] remOK(b) && pos(b.reader.br) >= old(pos(b.reader.br)) && noInc(b) && charged(b) && exactTop(b)
 
 
 //@ func readCrxTrakBox
 //@   props C01 C02 C11
 //@   requires wf2(b)
 //@   modifies stream(b.reader.br), b.remain, b.outer.remain, b.outer.outer.remain, b.reader.offset
-//@   ensures remOK(b) && pos(b.reader.br) >= old(pos(b.reader.br)) && noInc(b) && charged(b) && exactTop(b)
+//@   ensures [C11] remOK(b) && pos(b.reader.br) >= old(pos(b.reader.br)) && noInc(b) && charged(b) && exactTop(b)
 
 
 //@ func readPitm
 //@   props C01 C02 C11
 //@   requires wf2(b)
 //@   modifies stream(b.reader.br), b.remain, b.outer.remain, b.outer.outer.remain, b.reader.offset, b.flags
-//@   ensures remOK(b) && pos(b.reader.br) >= old(pos(b.reader.br)) && noInc(b) && charged(b) && exactTop(b)
+//@   ensures [C11] remOK(b) && pos(b.reader.br) >= old(pos(b.reader.br)) && noInc(b) && charged(b) && exactTop(b)
 
 
 //@ func readIdat
 //@   props C01 C02 C11
 //@   requires wf2(b)
 //@   modifies stream(b.reader.br), b.remain, b.outer.remain, b.outer.outer.remain, b.reader.offset
-//@   ensures remOK(b) && pos(b.reader.br) >= old(pos(b.reader.br)) && noInc(b) && charged(b) && exactTop(b)
+//@   ensures [C11] remOK(b) && pos(b.reader.br) >= old(pos(b.reader.br)) && noInc(b) && charged(b) && exactTop(b)
 
 
 //@ func readHdlr
 //@   props C01 C02 C11
 //@   requires wf2(b)
 //@   modifies stream(b.reader.br), b.remain, b.outer.remain, b.outer.outer.remain, b.reader.offset, b.flags
-//@   ensures remOK(b) && pos(b.reader.br) >= old(pos(b.reader.br)) && noInc(b) && charged(b) && exactTop(b)
+//@   ensures [C11] remOK(b) && pos(b.reader.br) >= old(pos(b.reader.br)) && noInc(b) && charged(b) && exactTop(b)
 
 
 //@ func readIpma
 //@   props C01 C02 C11
 //@   requires wf2(b)
 //@   modifies stream(b.reader.br), b.remain, b.outer.remain, b.outer.outer.remain, b.reader.offset, b.flags
-//@   ensures remOK(b) && pos(b.reader.br) >= old(pos(b.reader.br)) && noInc(b) && charged(b) && exactTop(b)
+//@   ensures [C11] remOK(b) && pos(b.reader.br) >= old(pos(b.reader.br)) && noInc(b) && charged(b) && exactTop(b)
 
 
 //@ func readIpco
 //@   props C01 C02 C11
 //@   requires wf2(b)
 //@   modifies stream(b.reader.br), b.remain, b.outer.remain, b.outer.outer.remain, b.reader.offset
-//@   ensures remOK(b) && pos(b.reader.br) >= old(pos(b.reader.br)) && noInc(b) && charged(b) && exactTop(b)
+//@   ensures [C11] remOK(b) && pos(b.reader.br) >= old(pos(b.reader.br)) && noInc(b) && charged(b) && exactTop(b)
 
 
 //@ func readIlocHeader
 //@   props C01 C02 C11
 //@   requires wf2(b)
 //@   modifies stream(b.reader.br), b.remain, b.outer.remain, b.outer.outer.remain, b.reader.offset, b.flags
-//@   ensures remOK(b) && pos(b.reader.br) >= old(pos(b.reader.br)) && noInc(b) && charged(b) && exactTop(b)
+//@   ensures [C11] remOK(b) && pos(b.reader.br) >= old(pos(b.reader.br)) && noInc(b) && charged(b) && exactTop(b)
 
 
 //@ func readExifHeader
 //@   props C01 C02 C06 C07 C11
 //@   requires wf2(b)
 //@   modifies stream(b.reader.br), b.remain, b.outer.remain, b.outer.outer.remain, b.reader.offset
-//@   ensures remOK(b) && pos(b.reader.br) >= old(pos(b.reader.br)) && noInc(b) && charged(b) && exactTop(b)
+//@   ensures [C11] remOK(b) && pos(b.reader.br) >= old(pos(b.reader.br)) && noInc(b) && charged(b) && exactTop(b)
 //@   ensures [C06 C11] err == nil ==> header.FirstIfd == firstIfd && header.TiffHeaderOffset == 0 && header.ExifLength == uint32(old(b.remain))
 //@   ensures [C06 C07 C11] err == nil ==> hdrAt(header, b.reader.br, old(pos(b.reader.br)))
 //@   ensures [C06 C11] err == nil ==> pos(b.reader.br) == old(pos(b.reader.br)) + 8 && b.remain == old(b.remain) - 8
@@ -348,7 +348,7 @@ package isobmff
 //@   props C01 C02 C11
 //@   requires wf2(b)
 //@   modifies stream(b.reader.br), b.remain, b.outer.remain, b.outer.outer.remain, b.reader.offset
-//@   ensures remOK(b) && pos(b.reader.br) >= old(pos(b.reader.br)) && noInc(b) && charged(b) && exactTop(b)
+//@   ensures [C11] remOK(b) && pos(b.reader.br) >= old(pos(b.reader.br)) && noInc(b) && charged(b) && exactTop(b)
 //@   ensures [C11] err == nil ==> pos(b.reader.br) == old(pos(b.reader.br)) + 24 && b.remain == old(b.remain) - 24
 //@   ensures [C11] err == nil ==> prvw.Size == be32At(b.reader.br, old(pos(b.reader.br)) + 20) && prvw.Width == be16At(b.reader.br, old(pos(b.reader.br)) + 14) && prvw.Height == be16At(b.reader.br, old(pos(b.reader.br)) + 16)
 
@@ -357,7 +357,7 @@ package isobmff
 //@   props C01 C02 C11
 //@   requires wf2(b)
 //@   modifies stream(b.reader.br), b.remain, b.outer.remain, b.outer.outer.remain, b.reader.offset, b.flags, r.heic
-//@   ensures remOK(b) && pos(b.reader.br) >= old(pos(b.reader.br)) && noInc(b) && charged(b) && exactTop(b)
+//@   ensures [C11] remOK(b) && pos(b.reader.br) >= old(pos(b.reader.br)) && noInc(b) && charged(b) && exactTop(b)
 //@   loop 0 invariant 0 <= i
 //@   loop 0 decreases len(buf) - i
 //@   loop 1 invariant 0 <= i && 0 <= j
@@ -368,7 +368,7 @@ package isobmff
 //@   props C01 C02 C11
 //@   requires wf2(b)
 //@   modifies stream(b.reader.br), b.remain, b.outer.remain, b.outer.outer.remain, b.reader.offset, r.heic
-//@   ensures remOK(b) && pos(b.reader.br) >= old(pos(b.reader.br)) && noInc(b) && charged(b) && exactTop(b)
+//@   ensures [C11] remOK(b) && pos(b.reader.br) >= old(pos(b.reader.br)) && noInc(b) && charged(b) && exactTop(b)
 //@   loop 0 invariant 0 <= i
 //@   loop 0 decreases len(buf) - i
 
@@ -377,15 +377,15 @@ package isobmff
 //@   props C01 C02 C11
 //@   requires wf2(b)
 //@   modifies stream(b.reader.br), b.remain, b.outer.remain, b.outer.outer.remain, b.reader.offset, b.flags, r.heic
-//@   ensures remOK(b) && pos(b.reader.br) >= old(pos(b.reader.br)) && noInc(b) && charged(b) && exactTop(b)
+//@   ensures [C11] remOK(b) && pos(b.reader.br) >= old(pos(b.reader.br)) && noInc(b) && charged(b) && exactTop(b)
 
 
 //@ func readIprp
 //@   props C01 C02 C11
 //@   requires wf1(b)
 //@   modifies stream(b.reader.br), b.remain, b.outer.remain, b.outer.outer.remain, b.reader.offset, box.flags
-//@   ensures remOK(b) && pos(b.reader.br) >= old(pos(b.reader.br)) && noInc(b) && charged(b) && exactTop(b)
-//@   loop 0 invariant remOK(b) && pos(b.reader.br) >= old(pos(b.reader.br)) && noInc(b) && charged(b) && exactTop(b)
+//@   ensures [C11] remOK(b) && pos(b.reader.br) >= old(pos(b.reader.br)) && noInc(b) && charged(b) && exactTop(b)
+//@   loop 0 invariant [C11] remOK(b) && pos(b.reader.br) >= old(pos(b.reader.br)) && noInc(b) && charged(b) && exactTop(b)
 //@   loop 0 invariant ok && err == nil ==> inner.outer == b && inner.reader == b.reader && inner.remain >= 0
 //@   loop 0 decreases ite(ok && err == nil, 1, 0), b.remain
 
@@ -394,8 +394,8 @@ package isobmff
 //@   props C01 C02 C11
 //@   requires wf1(b)
 //@   modifies stream(b.reader.br), b.remain, b.outer.remain, b.outer.outer.remain, b.reader.offset, b.flags
-//@   ensures remOK(b) && pos(b.reader.br) >= old(pos(b.reader.br)) && noInc(b) && charged(b) && exactTop(b)
-//@   loop 0 invariant remOK(b) && pos(b.reader.br) >= old(pos(b.reader.br)) && noInc(b) && charged(b) && exactTop(b)
+//@   ensures [C11] remOK(b) && pos(b.reader.br) >= old(pos(b.reader.br)) && noInc(b) && charged(b) && exactTop(b)
+//@   loop 0 invariant [C11] remOK(b) && pos(b.reader.br) >= old(pos(b.reader.br)) && noInc(b) && charged(b) && exactTop(b)
 //@   loop 0 invariant ok && err == nil ==> inner.outer == b && inner.reader == b.reader && inner.remain >= 0
 //@   loop 0 decreases ite(ok && err == nil, 1, 0), b.remain
 
@@ -405,15 +405,15 @@ package isobmff
 //@   requires wf2(b)
 //@   requires [C11] cmtDir(b.boxType, ifdType)
 //@   modifies stream(b.reader.br), b.remain, b.outer.remain, b.outer.outer.remain, b.reader.offset, foreign
-//@   ensures remOK(b) && pos(b.reader.br) >= old(pos(b.reader.br)) && noInc(b) && charged(b) && exactTop(b)
+//@   ensures [C11] remOK(b) && pos(b.reader.br) >= old(pos(b.reader.br)) && noInc(b) && charged(b) && exactTop(b)
 
 
 //@ func readCrxMoovBox
 //@   props C01 C02 C11 C06
 //@   requires wf1(b)
 //@   modifies stream(b.reader.br), b.remain, b.outer.remain, b.outer.outer.remain, b.reader.offset, foreign
-//@   ensures remOK(b) && pos(b.reader.br) >= old(pos(b.reader.br)) && noInc(b) && charged(b) && exactTop(b)
-//@   loop 0 invariant remOK(b) && pos(b.reader.br) >= old(pos(b.reader.br)) && noInc(b) && charged(b) && exactTop(b)
+//@   ensures [C11] remOK(b) && pos(b.reader.br) >= old(pos(b.reader.br)) && noInc(b) && charged(b) && exactTop(b)
+//@   loop 0 invariant [C11] remOK(b) && pos(b.reader.br) >= old(pos(b.reader.br)) && noInc(b) && charged(b) && exactTop(b)
 //@   loop 0 invariant ok && err == nil ==> inner.outer == b && inner.reader == b.reader && inner.remain >= 0
 //@   loop 0 decreases ite(ok && err == nil, 1, 0), b.remain
 
@@ -422,7 +422,7 @@ package isobmff
 //@   props C01 C02 C11
 //@   requires wf1(b)
 //@   modifies stream(b.reader.br), b.remain, b.outer.remain, b.outer.outer.remain, b.reader.offset
-//@   ensures remOK(b) && pos(b.reader.br) >= old(pos(b.reader.br)) && noInc(b) && charged(b) && exactTop(b)
+//@   ensures [C11] remOK(b) && pos(b.reader.br) >= old(pos(b.reader.br)) && noInc(b) && charged(b) && exactTop(b)
 //@   ensures err == nil ==> inner.outer == b && inner.reader == b.reader && inner.remain >= 0
 
 
@@ -430,7 +430,7 @@ package isobmff
 //@   props C01 C02 C11
 //@   requires wf1(b)
 //@   modifies stream(b.reader.br), b.remain, b.outer.remain, b.outer.outer.remain, b.reader.offset, r.prvw, foreign
-//@   ensures remOK(b) && pos(b.reader.br) >= old(pos(b.reader.br)) && noInc(b) && charged(b) && exactTop(b)
+//@   ensures [C11] remOK(b) && pos(b.reader.br) >= old(pos(b.reader.br)) && noInc(b) && charged(b) && exactTop(b)
 
 
 //@ func (*Reader).readUUIDBox
@@ -438,7 +438,7 @@ package isobmff
 //@   requires wf1(b)
 //@   modifies stream(b.reader.br), b.remain, b.outer.remain, b.outer.outer.remain, b.reader.offset, r.prvw, foreign
 //@   ensures [C11] r0 == nil ==> b.remain == 0
-//@   ensures remOK(b) && pos(b.reader.br) >= old(pos(b.reader.br)) && noInc(b) && charged(b) && exactTop(b)
+//@   ensures [C11] remOK(b) && pos(b.reader.br) >= old(pos(b.reader.br)) && noInc(b) && charged(b) && exactTop(b)
 
 
 //@ func (*Reader).readMeta
@@ -446,8 +446,8 @@ package isobmff
 //@   requires wf0(b)
 //@   modifies stream(b.reader.br), b.remain, b.outer.remain, b.outer.outer.remain, b.reader.offset, box.flags, r.heic, r.prvw, foreign
 //@   ensures [C11] err == nil ==> b.remain == 0
-//@   ensures remOK(b) && pos(b.reader.br) >= old(pos(b.reader.br)) && noInc(b) && charged(b) && exactTop(b)
-//@   loop 0 invariant remOK(b) && pos(b.reader.br) >= old(pos(b.reader.br)) && noInc(b) && charged(b) && exactTop(b)
+//@   ensures [C11] remOK(b) && pos(b.reader.br) >= old(pos(b.reader.br)) && noInc(b) && charged(b) && exactTop(b)
+//@   loop 0 invariant [C11] remOK(b) && pos(b.reader.br) >= old(pos(b.reader.br)) && noInc(b) && charged(b) && exactTop(b)
 //@   loop 0 invariant ok && err == nil ==> inner.outer == b && inner.reader == b.reader && inner.remain >= 0
 //@   loop 0 cutexits
 //@   loop 0 decreases ite(ok && err == nil, 1, 0), b.remain
@@ -458,8 +458,8 @@ package isobmff
 //@   requires wf0(b)
 //@   modifies stream(b.reader.br), b.remain, b.outer.remain, b.outer.outer.remain, b.reader.offset, r.prvw, foreign
 //@   ensures [C11] err == nil ==> b.remain == 0
-//@   ensures remOK(b) && pos(b.reader.br) >= old(pos(b.reader.br)) && noInc(b) && charged(b) && exactTop(b)
-//@   loop 0 invariant remOK(b) && pos(b.reader.br) >= old(pos(b.reader.br)) && noInc(b) && charged(b) && exactTop(b)
+//@   ensures [C11] remOK(b) && pos(b.reader.br) >= old(pos(b.reader.br)) && noInc(b) && charged(b) && exactTop(b)
+//@   loop 0 invariant [C11] remOK(b) && pos(b.reader.br) >= old(pos(b.reader.br)) && noInc(b) && charged(b) && exactTop(b)
 //@   loop 0 invariant ok && err == nil ==> inner.outer == b && inner.reader == b.reader && inner.remain >= 0
 //@   loop 0 decreases ite(ok && err == nil, 1, 0), b.remain
 
@@ -468,7 +468,7 @@ package isobmff
 //@   props C01 C02 C11
 //@   requires wf1(b)
 //@   modifies stream(b.reader.br), b.remain, b.outer.remain, b.outer.outer.remain, b.reader.offset
-//@   ensures remOK(b) && pos(b.reader.br) >= old(pos(b.reader.br)) && noInc(b) && charged(b) && exactTop(b)
+//@   ensures [C11] remOK(b) && pos(b.reader.br) >= old(pos(b.reader.br)) && noInc(b) && charged(b) && exactTop(b)
 //@   ensures err == nil ==> inner.outer == b && inner.reader == b.reader && inner.remain >= 0 && inner.boxType == typeExif
 
 
@@ -477,7 +477,7 @@ package isobmff
 //@   requires wf1(b)
 //@   modifies stream(b.reader.br), b.remain, b.outer.remain, b.outer.outer.remain, b.reader.offset, foreign
 //@   ensures [C11] err == nil ==> b.remain == 0
-//@   ensures remOK(b) && pos(b.reader.br) >= old(pos(b.reader.br)) && noInc(b) && charged(b) && exactTop(b)
+//@   ensures [C11] remOK(b) && pos(b.reader.br) >= old(pos(b.reader.br)) && noInc(b) && charged(b) && exactTop(b)
 
 
 // Callbacks receive a box as their reader. A callback lives in another package: it may change anything that is not
@@ -492,7 +492,7 @@ package isobmff
 //@   requires [C06 C11] h.TiffHeaderOffset == 0 && h.ExifLength == uint32(as(r, "*isobmff.box").remain + 8)
 //@   requires [C06 C07 C11] hdrAt(h, as(r, "*isobmff.box").reader.br, pos(as(r, "*isobmff.box").reader.br) - 8)
 //@   modifies stream(as(r, "*isobmff.box").reader.br), as(r, "*isobmff.box").remain, as(r, "*isobmff.box").outer.remain, as(r, "*isobmff.box").outer.outer.remain, as(r, "*isobmff.box").reader.offset, foreign(isobmff)
-//@   ensures remOK(as(r, "*isobmff.box")) && pos(as(r, "*isobmff.box").reader.br) >= old(pos(as(r, "*isobmff.box").reader.br)) && noInc(as(r, "*isobmff.box")) && charged(as(r, "*isobmff.box")) && exactTop(as(r, "*isobmff.box"))
+//@   ensures [C11] remOK(as(r, "*isobmff.box")) && pos(as(r, "*isobmff.box").reader.br) >= old(pos(as(r, "*isobmff.box").reader.br)) && noInc(as(r, "*isobmff.box")) && charged(as(r, "*isobmff.box")) && exactTop(as(r, "*isobmff.box"))
 
 // the CR3 readers receive Reader.ExifReader as a parameter and pass it on unchanged
 //@ dep callback isobmff.readCMTBox.exifReader = isobmff.Reader.ExifReader
@@ -503,7 +503,7 @@ package isobmff
 //@   requires r != nil && is(r, "*isobmff.box")
 //@   requires [C11] wf2(as(r, "*isobmff.box"))
 //@   modifies stream(as(r, "*isobmff.box").reader.br), as(r, "*isobmff.box").remain, as(r, "*isobmff.box").outer.remain, as(r, "*isobmff.box").outer.outer.remain, as(r, "*isobmff.box").reader.offset, foreign(isobmff)
-//@   ensures remOK(as(r, "*isobmff.box")) && pos(as(r, "*isobmff.box").reader.br) >= old(pos(as(r, "*isobmff.box").reader.br)) && noInc(as(r, "*isobmff.box")) && charged(as(r, "*isobmff.box")) && exactTop(as(r, "*isobmff.box"))
+//@   ensures [C11] remOK(as(r, "*isobmff.box")) && pos(as(r, "*isobmff.box").reader.br) >= old(pos(as(r, "*isobmff.box").reader.br)) && noInc(as(r, "*isobmff.box")) && charged(as(r, "*isobmff.box")) && exactTop(as(r, "*isobmff.box"))
 
 //@ dep callback isobmff.Reader.PreviewImageReader
 //@   names r h -> err
@@ -511,7 +511,7 @@ package isobmff
 //@   requires [C11] wf2(as(r, "*isobmff.box"))
 //@   requires [C11] h.Size == be32At(as(r, "*isobmff.box").reader.br, pos(as(r, "*isobmff.box").reader.br) - 4) && h.Width == be16At(as(r, "*isobmff.box").reader.br, pos(as(r, "*isobmff.box").reader.br) - 10) && h.Height == be16At(as(r, "*isobmff.box").reader.br, pos(as(r, "*isobmff.box").reader.br) - 8)
 //@   modifies stream(as(r, "*isobmff.box").reader.br), as(r, "*isobmff.box").remain, as(r, "*isobmff.box").outer.remain, as(r, "*isobmff.box").outer.outer.remain, as(r, "*isobmff.box").reader.offset, foreign(isobmff)
-//@   ensures remOK(as(r, "*isobmff.box")) && pos(as(r, "*isobmff.box").reader.br) >= old(pos(as(r, "*isobmff.box").reader.br)) && noInc(as(r, "*isobmff.box")) && charged(as(r, "*isobmff.box")) && exactTop(as(r, "*isobmff.box"))
+//@   ensures [C11] remOK(as(r, "*isobmff.box")) && pos(as(r, "*isobmff.box").reader.br) >= old(pos(as(r, "*isobmff.box").reader.br)) && noInc(as(r, "*isobmff.box")) && charged(as(r, "*isobmff.box")) && exactTop(as(r, "*isobmff.box"))
 
 //@ func (*Reader).reset
 //@   props C01
